@@ -53,8 +53,9 @@ CHECK_DEADLOCK FALSE
 # name -> bounds; mod = export every mod-th case (by CaseHash + seed), workers = TLC worker threads
 CONFIGS = {
     'quick': [
-        # one profile, <= 3 samples, depth <= 3 over 2 functions (recursion + shared frames), values 0..2: 17297 cases
-        ('S3', dict(fn='MCFn2', K=1, depth=3, minv=0, maxv=2, P=1, S=3, T=3, mod=1, workers=8)),
+        # one profile, <= 3 samples, depth <= 3 over 2 functions (recursion + shared frames), values 1..2: 5457 cases
+        # (zero values: config M2 holds every single profile of <= 2 samples with values 0..2; thorough S3 has 0..2 x 3 samples)
+        ('S3', dict(fn='MCFn2', K=1, depth=3, minv=1, maxv=2, P=1, S=3, T=3, mod=1, workers=6)),
         # two sample types
         ('K2', dict(fn='MCFn2', K=2, depth=3, minv=0, maxv=1, P=1, S=2, T=2, mod=1, workers=2)),
         # two profiles, all merge orders
@@ -221,9 +222,11 @@ def run(tier):
         if missing or result['distinct_nontrivial'] < ncases // 2 or result['merge_runs'] < ncases:
             raise vlib.Infra('vacuous coverage: classes never exercised %s (classes %s, non-trivial %d of %d)' % (
                 missing, result['classes'], result['distinct_nontrivial'], ncases))
+        nth = {}
         for m in result['mismatches']:
             sig = m['signature']
-            path = vlib.save_replay('C16', re.sub(r'[^A-Za-z0-9]+', '_', sig)[:80] + '_case%d' % m['case'],
+            nth[sig] = nth.get(sig, 0) + 1
+            path = vlib.save_replay('C16', re.sub(r'[^A-Za-z0-9]+', '_', sig)[:80] + '_%d' % nth[sig],
                                     {'kind': 'TLC case replayed into the real profile parsers and reader tree code (harness/cmd/c16)',
                                      'seed': vlib.seed(), 'tier': tier, 'mismatch': m,
                                      'occurrences_in_this_run': result['mismatch_counts'].get(sig)})
@@ -250,7 +253,10 @@ def run(tier):
                 ob = json.loads(lines[idx - 1])
                 okind = ob['order'].split(':')[0]
                 sig = 'obs_rejected|' + okind
-                path = vlib.save_replay('C16', 'obs_rejected_%s_case%d' % (okind, ob['case']),
+                nth[sig] = nth.get(sig, 0) + 1
+                if nth[sig] > 3:
+                    continue
+                path = vlib.save_replay('C16', 'obs_rejected_%s_%d' % (okind, nth[sig]),
                                         {'kind': 'observation of the real MergeTrie/BFS rejected by TLC (MC_ProfTreeObs)', 'seed': vlib.seed(),
                                          'observation': ob, 'spec_expected': exp})
                 viols.append({'property': 'C16', 'signature': sig, 'replay': path,
